@@ -388,10 +388,15 @@ def run(prog, rep, tier):
                     for op in s.rv.ops:
                         if op.kind == 'const' and op.const_def():
                             consts.add(op.const_def())
+                        if op.kind == 'const' and (op.k or {}).get('promoted_def'):
+                            consts.add(op.k['promoted_def'])       # `&MLA_MAGIC` in a comparison of references
             if b.term.kind == 'call':
                 for a in b.term.args:
                     if a.kind == 'const' and a.const_def():
                         consts.add(a.const_def())
+                    if a.kind == 'const' and (a.k or {}).get('promoted_def'):
+                        consts.add(a.k['promoted_def'])
+        consts = {c.rsplit('::', 1)[-1] for c in consts}
         ok = 'MLA_MAGIC' in consts and 'MLA_FORMAT_VERSION' in consts
         rep.ob('R06.3', ok, 'R06.3|mla::ArchiveHeader::from|checks-magic-and-version', 'header reader compares magic and version with the constants' if ok else 'header reader no longer checks MLA_MAGIC / MLA_FORMAT_VERSION (uses %s)' % sorted(consts), hf.loc())
     hd = prog.body('mla', 'ArchiveHeader::dump')
